@@ -222,6 +222,14 @@ def main():
     gate_hits = gate()
     pr = proof_step(pid) if ok_build else {"obligations": 0, "discharged": 0, "theorems": [], "ok": False, "log": blog}
     proof_broken = (not ok_build) or (not pr["ok"]) or bool(gate_hits)
+    coqchk = None
+    if tier == "thorough" and ok_build and pr["obligations"]:
+        # independent re-check of the compiled property file and everything it depends on; -o lists the axioms
+        pc = sh(["timeout", "1500", "coqchk", "-silent", "-o", "-Q", COQ, "SC", f"SC.Properties.{pid}"])
+        tail = (pc.stdout + pc.stderr)[-1500:]
+        coqchk = {"exit": pc.returncode, "output_tail": tail}
+        if pc.returncode != 0:
+            proof_broken = True
 
     rng = random.Random(f"{seed}/{pid}/{tier}")
     cases = gen.GENS[pid](rng, tier)
@@ -323,6 +331,7 @@ def main():
             "checker_cmd": f"make -C coq (coq_makefile, full .vo build) && coqc -Q coq SC coq/Properties/{pid}.v  # Print Assumptions parsed",
             "trusted_base": TRUSTED_BASE,
             "theorems": pr["theorems"],
+            "coqchk": coqchk,
             "explanation": "machine-checked theorems about the Gallina model (coq/Properties/%s.v) + correspondence check tying the model to /repo's working tree (programs run on the implementation, on the model by vm_compute, and on an independent rational oracle)" % pid,
             "evaluations": len(cases),
             "distinct_nontrivial": distinct_nt,
